@@ -18,7 +18,7 @@ Definition call_main (self : ops) : M value :=
 Definition call_comp (P : prog) (self : ops) : M value :=
   let c := global_ctx (p_strict P) in
   do _ <- global_declaration_instantiation P self (p_body P) c;;
-  do r <- o_run self [KSeq (p_body P) None] (CNormal None) c;;
+  do r <- o_run self (script_frames P) (CNormal None) c;;
   match r with
   | MDone (CNormal _) => call_main self
   | MDone (CThrow v) => throwv v
